@@ -27,7 +27,7 @@ def generate(seed, tier):
     names, style = gen_filter(rng, None, p_none=0.45, user=0.15)
     faulty = rng.random() < 0.5
     extra = [(0.04, lambda r: ["mk_uns"])]
-    ops = gen_dispatch_ops(rng, n_ops(spec), p_query=0.45, p_invalid=0.08 if faulty else 0.0,
+    ops = gen_dispatch_ops(rng, n_ops(spec), p_solve_rest=0.03 if rng.random() < 0.4 else 0.0, p_query=0.45, p_invalid=0.08 if faulty else 0.0,
                            p_reset=0.04 if faulty else 0.0, extra=extra, episodes=2 if rng.random() < 0.15 else 1)
     obs = []
     if all(d > 0 for job in spec["jobs"] for _, d in job) and rng.random() < 0.25:
